@@ -699,6 +699,25 @@ func bisonParserAction(s string, args *grammar.ActionVars, origin status.SourceN
 	return sb.String(), nil
 }
 
+// actionUsesValues returns true if a semantic action refers to the value of some symbol.
+func actionUsesValues(s string) bool {
+	for {
+		d := strings.IndexByte(s, '$')
+		if d == -1 || d+1 == len(s) {
+			return false
+		}
+		s = s[d+1:]
+		size, _, prop, err := parseMeta(s)
+		if err != nil {
+			return false
+		}
+		if prop == "value" {
+			return true
+		}
+		s = s[size:]
+	}
+}
+
 // parseMeta parses a meta expression after the dollar sign and returns its length.
 // The "prop" value is validated upon successful return.
 func parseMeta(s string) (d int, id, prop string, err error) {
